@@ -93,6 +93,38 @@ def probe(exe, lam):
     return lam, ("SIGABRT" if r.returncode == -signal.SIGABRT else "rc=%d" % r.returncode), None
 
 
+def probe_seq(exe, seq):
+    try:
+        r = subprocess.run([exe, "--seq=" + ",".join(str(x) for x in seq)], stdout=subprocess.PIPE, stderr=subprocess.PIPE, timeout=60)
+    except subprocess.TimeoutExpired:
+        return seq, "timeout", []
+    if r.returncode != 0:
+        return seq, "rc=%d" % r.returncode, []
+    try:
+        return seq, "ok", [json.loads(l) for l in r.stdout.decode().splitlines() if l.strip()]
+    except Exception:
+        return seq, "garbled", []
+
+
+def judge_seq(seq, status, outs):
+    if status != "ok" or len(outs) != len(seq):
+        return ["sequence %s must be accepted; observed %s" % (seq, status)]
+    bad = []
+    for pos, (lam, p) in enumerate(zip(seq, outs)):
+        b, _ = check_fields(lam, p)
+        bad += ["request #%d (lambda=%d) of the in-process sequence %s: %s" % (pos + 1, lam, seq, x) for x in b]
+    return bad
+
+
+def sequences():
+    base = [1, 40, 80, 81, 100, 128]
+    out = [[a, b] for a in base for b in base]
+    core4 = [1, 80, 81, 128]
+    out += [[a, b, c] for a in core4 for b in core4 for c in core4]
+    out += [[80, 128, 80, 128, 1, 81], [128, 80, 128, 80, 81, 1], list(range(1, 129)), list(range(128, 0, -1))]
+    return out
+
+
 def judge(lam, status, p):
     """(list of problems, signature)"""
     if lam <= 0 or lam > 128:
@@ -113,6 +145,10 @@ def replay(path):
     blob = json.load(open(path))
     exe = build.compile_harness("c19", blob["config"]["build"], blob["config"]["backend"])
     nf = 0
+    if "seq" in blob["case"]:
+        for _ in range(3):
+            nf += 1 if judge_seq(*probe_seq(exe, blob["case"]["seq"])) else 0
+        return nf, 3, ""
     for _ in range(3):
         lam, st, p = probe(exe, blob["case"]["lambda"])
         bad, _ = judge(lam, st, p)
@@ -150,7 +186,18 @@ def run(tier, seed):
             if bad:
                 res.failures.append({"check": "c19", "config": {"build": b, "backend": be}, "case": {"lambda": lam},
                                      "why": "; ".join(bad), "sig": sig + "/%d" % lam})
-        res.per_config["%s/%s" % (b, be)] = {"evaluations": len(results)}
+        with ThreadPoolExecutor(max_workers=core.NCPU) as ex:
+            sres = list(ex.map(lambda q: probe_seq(exe, q), sequences()))
+        for seq, st, outs in sres:
+            res.evaluations += 1
+            seen_nt.add((b, be, tuple(seq)))
+            bad = judge_seq(seq, st, outs)
+            if len(res.samples) < 12 and len(seq) == 3 and seq[0] != seq[1]:
+                res.samples.append({"config": {"build": b, "backend": be}, "sequence": seq, "outcome": st, "returned_n": [o.get("n") for o in outs]})
+            if bad:
+                res.failures.append({"check": "c19", "config": {"build": b, "backend": be}, "case": {"seq": seq},
+                                     "why": "; ".join(bad[:3]), "sig": "c19/sequence/%s" % "-".join(str(x) for x in seq[:4])})
+        res.per_config["%s/%s" % (b, be)] = {"evaluations": len(results) + len(sres)}
     for lab in ("80", "128"):
         e = expected(lab)
         e.update({"in_alpha_max": e["max_stdev"], "tlwe_alpha_max": e["max_stdev"]})
@@ -161,7 +208,7 @@ def run(tier, seed):
     res.rule = ("E2: every lambda in [-5,300] plus INT32_MIN, INT32_MIN+1, -1000, 10^6, INT32_MAX, each in its own process (rejection is "
                 "abort(): the oracle reads the exit status) on each listed build/back-end; accepted sets compared field by field with "
                 "spec/paramsets.json (README table + CGGI16/19), derived fields recomputed, structural constraints, monotonicity, >=12-sigma "
-                "margin from the noise formulas. Non-trivial = lambda at or next to a threshold (0,1,80,81,128,129) or an extreme value; "
+                "margin from the noise formulas. Histories: every ordered pair from {1,40,80,81,100,128}, every triple from {1,80,81,128} and four longer sequences are requested within ONE process (earlier sets kept alive) and each answer is checked the same way. Non-trivial = lambda at or next to a threshold (0,1,80,81,128,129) or an extreme value, or an in-process sequence; "
                 "distinct by construction (per configuration).")
     res.assumptions = ["documented table transcribed in spec/paramsets.json", "margin uses average-case variance formulas (C02 measures the real noise)"]
     return core.finish(res, custom_replay=replay)
